@@ -497,4 +497,56 @@ theorem full_layout_exists (n : Nat) (P : Prog) (d : FnDecl) (lay : LNode)
   · exact (fullE_good _ (tableF_ok P hs n) d.body cellsF hd eF).1
   · exact fullE_covers P _ (tableF_covers P n) d.body cellsF cellsF eF (fun _ hc => hc)
 
+/-! ### after the repair of F3 the published layout IS the layout of all sites -/
+
+mutual
+theorem fullE_eq_pubE (tbl : Table) : ∀ e : Expr, fullE tbl e = pubE tbl e
+  | .lit _ => by rw [fullE, pubE]
+  | .var _ => by rw [fullE, pubE]
+  | .now => by rw [fullE, pubE]
+  | .samplerate => by rw [fullE, pubE]
+  | .self => by rw [fullE, pubE]
+  | .lam _ _ => by rw [fullE, pubE]
+  | .un _ a => by rw [fullE, pubE, fullE_eq_pubE tbl a]
+  | .proj a _ => by rw [fullE, pubE, fullE_eq_pubE tbl a]
+  | .bin _ a b => by rw [fullE, pubE, fullE_eq_pubE tbl a, fullE_eq_pubE tbl b]; cases pubE tbl a <;> cases pubE tbl b <;> rfl
+  | .letE _ a b => by rw [fullE, pubE, fullE_eq_pubE tbl a, fullE_eq_pubE tbl b]; cases pubE tbl a <;> cases pubE tbl b <;> rfl
+  | .letTup _ a b => by rw [fullE, pubE, fullE_eq_pubE tbl a, fullE_eq_pubE tbl b]; cases pubE tbl a <;> cases pubE tbl b <;> rfl
+  | .assign _ a b => by rw [fullE, pubE, fullE_eq_pubE tbl a, fullE_eq_pubE tbl b]; cases pubE tbl a <;> cases pubE tbl b <;> rfl
+  | .ite c a b => by rw [fullE, pubE, fullE_eq_pubE tbl c, fullE_eq_pubE tbl a, fullE_eq_pubE tbl b]; cases pubE tbl c <;> cases pubE tbl a <;> cases pubE tbl b <;> rfl
+  | .tup es => by rw [fullE, pubE, fullL_eq_pubL tbl es]
+  | .app f args => by rw [fullE, pubE, fullE_eq_pubE tbl f, fullL_eq_pubL tbl args]; cases pubE tbl f <;> cases pubL tbl args <;> rfl
+  | .mem a _ => by rw [fullE, pubE, fullE_eq_pubE tbl a]; cases pubE tbl a <;> rfl
+  | .delay _ a t _ => by rw [fullE, pubE, fullE_eq_pubE tbl a, fullE_eq_pubE tbl t]; cases pubE tbl a <;> cases pubE tbl t <;> rfl
+  | .call f args _ => by rw [fullE, pubE, fullL_eq_pubL tbl args]; cases pubL tbl args <;> cases tbl f <;> rfl
+theorem fullL_eq_pubL (tbl : Table) : ∀ es : List Expr, fullL tbl es = pubL tbl es
+  | [] => by rw [fullL, pubL]
+  | e :: es => by rw [fullL, pubL, fullE_eq_pubE tbl e, fullL_eq_pubL tbl es]; cases pubE tbl e <;> cases pubL tbl es <;> rfl
+end
+
+theorem tableF_eq_table (P : Prog) : ∀ n, tableF P n = table P n
+  | 0 => rfl
+  | n + 1 => by
+    funext f
+    simp only [tableF, table, tableF_eq_table P n, fullE_eq_pubE]
+    cases findFn P.fns f with
+    | none => rfl
+    | some d => simp only; cases pubE (table P n) d.body <;> rfl
+
+theorem fullFnN_eq_publishFnN (n : Nat) (P : Prog) (d : FnDecl) : fullFnN n P d = publishFnN n P d := by
+  simp only [fullFnN, publishFnN, publishEN, tableF_eq_table, fullE_eq_pubE]
+  cases pubE (table P n) d.body <;> rfl
+
+theorem fullFn_eq_publishFn (P : Prog) (d : FnDecl) : fullFn P d = publishFn P d := fullFnN_eq_publishFnN _ P d
+
+/-- **the published layout covers the body, for EVERY program** (no class condition): every stateful construct of the
+body, in either arm of any `if`, owns a cell of its kind -/
+theorem publishFnN_covers (n : Nat) (P : Prog) (d : FnDecl) (lay : LNode) (hpub : publishFnN n P d = some lay) :
+    lay.self = d.selfShape ∧ Covers P lay.cells d.body := by
+  obtain ⟨hself, hcells⟩ := publishFnN_inv hpub
+  refine ⟨hself, ?_⟩
+  have hF : fullE (tableF P n) d.body = some lay.cells := by
+    rw [fullE_eq_pubE, tableF_eq_table]; exact hcells
+  exact fullE_covers P _ (tableF_covers P n) d.body lay.cells lay.cells hF (fun _ hc => hc)
+
 end Mimium.LiveCoding
